@@ -798,6 +798,7 @@ enum Target {
 struct Gate {
     open: tokio::sync::watch::Receiver<bool>,
     dial_started: Arc<Notify>,
+    h2_only: bool,
 }
 
 struct Registry {
@@ -885,7 +886,7 @@ impl Service<http::request::Parts> for E2eTransport {
                     "sproto": format!("{:?}", o.proto), "buf": if o.tr == Tr::Duplex { buf as i64 } else { -1 },
                     "ver": ver_str(parts.version)}));
             }
-            if let Some(g) = &reg.gate {
+            if let Some(g) = reg.gate.as_ref().filter(|g| !g.h2_only || parts.version == Version::HTTP_2) {
                 g.dial_started.notify_one();
                 let mut rx = g.open.clone();
                 while !*rx.borrow() {
@@ -1097,6 +1098,8 @@ struct SrvCtx {
     sconn: AtomicU32,
     hseq: AtomicU32,
     aborts: Arc<Mutex<Vec<tokio::task::AbortHandle>>>,
+    /// Scenario device: the handler of this request id answers only once the gate is open.
+    hold: Option<(i64, tokio::sync::watch::Receiver<bool>)>,
 }
 
 #[derive(Clone)]
@@ -1222,6 +1225,16 @@ async fn handle(ctx: Arc<SrvCtx>, sconn: u32, mut req: Request<hyperdriver::Body
         return Ok(Response::builder().status(400).body(ScriptBody::default()).unwrap());
     };
     delay(p.handler_delay).await;
+    if let Some((id, rx)) = &ctx.hold {
+        if *id == id_path {
+            let mut rx = rx.clone();
+            while !*rx.borrow() {
+                if rx.changed().await.is_err() {
+                    break;
+                }
+            }
+        }
+    }
 
     let mut rb = Response::builder()
         .header("x-rid", id_path.to_string())
@@ -1681,7 +1694,12 @@ struct World {
 }
 
 /// Servers (one instance per origin), the connection registry and the recorder of one run.
-async fn start_world(cfg: &Arc<RunCfg>, sockdir: &str, gate: Option<Gate>) -> World {
+async fn start_world(
+    cfg: &Arc<RunCfg>,
+    sockdir: &str,
+    gate: Option<Gate>,
+    hold: Option<(i64, tokio::sync::watch::Receiver<bool>)>,
+) -> World {
     let rec = Arc::new(Recorder::default());
     let mut targets = Vec::new();
     let mut servers = Vec::new();
@@ -1695,6 +1713,7 @@ async fn start_world(cfg: &Arc<RunCfg>, sockdir: &str, gate: Option<Gate>) -> Wo
             sconn: AtomicU32::new(0),
             hseq: AtomicU32::new(0),
             aborts: aborts.clone(),
+            hold: hold.clone(),
         });
         let (target, acceptor) = match o.tr {
             Tr::Duplex => {
@@ -1804,7 +1823,7 @@ macro_rules! pool_stack {
 }
 
 async fn run_one(cfg: Arc<RunCfg>, sockdir: String) -> RunStats {
-    let w = start_world(&cfg, &sockdir, None).await;
+    let w = start_world(&cfg, &sockdir, None, None).await;
     let (stuck, conns_killed) = match cfg.stack {
         Stack::Client => {
             // the full `Client::builder()` stack (user agent, response adaptation, pool, host header,
@@ -1825,71 +1844,8 @@ async fn run_one(cfg: Arc<RunCfg>, sockdir: String) -> RunStats {
     w.finish(stuck, conns_killed).await
 }
 
-/// Deterministic scenario (no clocks; causally ordered through a gate in the transport):
-/// pool with continue_after_preemption = false, one HTTP/2-only origin.
-///   1. R1 (HTTP/2) is issued and polled: it announces the connection attempt; its dial is held.
-///   2. R2 (same origin) is issued: the pool tells it to wait for R1's attempt (no connector).
-///   3. R1 is dropped by its caller while its dial is still in progress.
-///   4. the gate is opened; R2 is awaited.
-/// C01: R2 was not cancelled and no peer broke anything, so R2 must complete successfully.
-async fn scenario_waiter_owner_cancelled(sockdir: String) -> (Arc<RunCfg>, RunStats) {
-    let cfg = Arc::new(RunCfg {
-        master: 0,
-        run: 0,
-        seed: mix(0xD2, 0xD2),
-        thorough: false,
-        stack: Stack::Pool,
-        origins: vec![OriginCfg {
-            idx: 0,
-            proto: Proto::H2,
-            tr: Tr::Duplex,
-        }],
-        cap: false,
-        idle_timeout: false,
-        waves: vec![],
-        n_main: 2,
-        zone_d7: false,
-        p_cancel: 0,
-        p_upgrade: 0,
-    });
-    let (open_tx, open_rx) = tokio::sync::watch::channel(false);
-    let dial_started = Arc::new(Notify::new());
-    let w = start_world(
-        &cfg,
-        &sockdir,
-        Some(Gate {
-            open: open_rx,
-            dial_started: dial_started.clone(),
-        }),
-    )
-    .await;
-    let mut svc = pool_stack!(w);
-    let never = Arc::new(Notify::new());
-    let issue = |p: &Plan| json!({"e": "Issue", "r": p.id, "origin": 0, "ver": "h2", "upg": false});
-    let mut p1 = Plan::derive(&cfg, 1);
-    p1.cancel = CancelPlan::None;
-    let mut p2 = Plan::derive(&cfg, 2);
-    p2.cancel = CancelPlan::None;
-    let (p1, p2) = (Arc::new(p1), Arc::new(p2));
-    // 1
-    w.rec.req(1, issue(&p1));
-    let f1 = svc.call(build_request(&w.env, &p1, &never));
-    let h1 = tokio::spawn(async move {
-        let _ = f1.await;
-    });
-    dial_started.notified().await;
-    // 2: the checkout is created inside `Service::call`
-    w.rec.req(2, issue(&p2));
-    let f2 = svc.call(build_request(&w.env, &p2, &never));
-    // 3
-    h1.abort();
-    let _ = h1.await;
-    w.rec.req(1, json!({"e": "Cancel", "r": 1, "stage": "dialling"}));
-    // 4
-    let _ = open_tx.send(true);
-    let out = tokio::time::timeout(STALL, do_request(w.env.clone(), f2, p2.clone())).await;
-    let mut stuck = 0;
-    let ev = match out {
+fn outcome_event(r: u32, out: Result<Outcome, tokio::time::error::Elapsed>) -> (Value, usize) {
+    match out {
         Ok(Outcome::Response {
             status,
             echo,
@@ -1899,18 +1855,150 @@ async fn scenario_waiter_owner_cancelled(sockdir: String) -> (Arc<RunCfg>, RunSt
             body_ok,
             upgraded,
             ..
-        }) => json!({"e": "Response", "r": 2, "echo": echo, "stamp": stamp, "status": status,
-                    "statusOk": status_ok, "headersOk": headers_ok, "bodyOk": body_ok, "upgraded": upgraded}),
-        Ok(Outcome::Error(kind)) => json!({"e": "Error", "r": 2, "kind": kind}),
-        Ok(Outcome::Cancel(stage)) => json!({"e": "Cancel", "r": 2, "stage": stage}),
-        Err(_) => {
-            stuck = 1;
-            json!({"e": "Stuck", "r": 2})
-        }
+        }) => (
+            json!({"e": "Response", "r": r, "echo": echo, "stamp": stamp, "status": status,
+                   "statusOk": status_ok, "headersOk": headers_ok, "bodyOk": body_ok, "upgraded": upgraded}),
+            0,
+        ),
+        Ok(Outcome::Error(kind)) => (json!({"e": "Error", "r": r, "kind": kind}), 0),
+        Ok(Outcome::Cancel(stage)) => (json!({"e": "Cancel", "r": r, "stage": stage}), 0),
+        Err(_) => (json!({"e": "Stuck", "r": r}), 1),
+    }
+}
+
+/// Deterministic scenarios (no clocks; causally ordered through gates in the transport / handler):
+/// pool with continue_after_preemption = false, one origin.
+///
+/// `waiter-owner-cancelled` (HTTP/2-only server):
+///   1. R1 (HTTP/2) is issued and polled: it announces the connection attempt; its dial is held.
+///   2. R2 (same origin) is issued: the pool tells it to wait for R1's attempt (no connector).
+///   3. R1 is dropped by its caller while its dial is still in progress.
+///   4. the gate is opened; R2 is awaited.
+/// `waiter-owner-preempted` (auto-detecting server):
+///   1. R1 (HTTP/1.1) is issued, dials, is sent; its handler is held: the connection is busy.
+///   2. R2 (HTTP/2) is issued and polled: it announces an attempt; its (HTTP/2) dial is held.
+///   3. R3 is issued: told to wait for R2's attempt.
+///   4. R1's handler is released: R1 completes, its connection returns to the pool and is handed to the
+///      first waiter, R2, which therefore completes on it and abandons its own dial.
+///   5. R2 is awaited, the dial gate is opened, R3 is awaited.
+/// C01: the last request was not cancelled and no peer broke anything, so it must complete successfully.
+async fn scenario_waiter(kind: &str, sockdir: String) -> (Arc<RunCfg>, RunStats) {
+    let preempt = kind == "waiter-owner-preempted";
+    let want: &[bool] = if preempt { &[false, true, true] } else { &[true, true] };
+    let mk = |seed: u64| RunCfg {
+        master: 0,
+        run: 0,
+        seed,
+        thorough: false,
+        stack: Stack::Pool,
+        origins: vec![OriginCfg {
+            idx: 0,
+            proto: if preempt { Proto::Auto } else { Proto::H2 },
+            tr: Tr::Duplex,
+        }],
+        cap: false,
+        idle_timeout: false,
+        waves: vec![],
+        n_main: want.len(),
+        zone_d7: false,
+        p_cancel: 0,
+        p_upgrade: 0,
     };
-    w.rec.req(2, ev);
+    // a seed for which the derived plans have the HTTP versions the scenario needs (and no `Connection: close`)
+    let mut seed = mix(0xD2, 0xD2);
+    loop {
+        let c = mk(seed);
+        let ok = want.iter().enumerate().all(|(i, h2)| {
+            let p = Plan::derive(&c, i as u32 + 1);
+            p.h2 == *h2 && !p.conn_close
+        });
+        if ok {
+            break;
+        }
+        seed = mix(seed, 1);
+    }
+    let cfg = Arc::new(mk(seed));
+    let (open_tx, open_rx) = tokio::sync::watch::channel(false);
+    let (hold_tx, hold_rx) = tokio::sync::watch::channel(false);
+    let dial_started = Arc::new(Notify::new());
+    let w = start_world(
+        &cfg,
+        &sockdir,
+        Some(Gate {
+            open: open_rx,
+            dial_started: dial_started.clone(),
+            h2_only: preempt,
+        }),
+        if preempt { Some((1, hold_rx)) } else { None },
+    )
+    .await;
+    let mut svc = pool_stack!(w);
+    let never = Arc::new(Notify::new());
+    let plan = |id: u32| {
+        let mut p = Plan::derive(&cfg, id);
+        p.cancel = CancelPlan::None;
+        Arc::new(p)
+    };
+    let issue = |p: &Plan| json!({"e": "Issue", "r": p.id, "origin": 0, "ver": if p.h2 {"h2"} else {"h1"}, "upg": false});
+    let mut stuck = 0;
+    if !preempt {
+        let (p1, p2) = (plan(1), plan(2));
+        w.rec.req(1, issue(&p1));
+        let f1 = svc.call(build_request(&w.env, &p1, &never));
+        let h1 = tokio::spawn(async move {
+            let _ = f1.await;
+        });
+        dial_started.notified().await;
+        w.rec.req(2, issue(&p2)); // the checkout is created inside `Service::call`
+        let f2 = svc.call(build_request(&w.env, &p2, &never));
+        h1.abort();
+        let _ = h1.await;
+        w.rec.req(1, json!({"e": "Cancel", "r": 1, "stage": "dialling"}));
+        let _ = open_tx.send(true);
+        let (ev, st) = outcome_event(2, tokio::time::timeout(STALL, do_request(w.env.clone(), f2, p2.clone())).await);
+        stuck += st;
+        w.rec.req(2, ev);
+    } else {
+        let (p1, p2, p3) = (plan(1), plan(2), plan(3));
+        // 1
+        w.rec.req(1, issue(&p1));
+        let f1 = svc.call(build_request(&w.env, &p1, &never));
+        let (env1, pl1) = (w.env.clone(), p1.clone());
+        let h1 = tokio::spawn(async move { do_request(env1, f1, pl1).await });
+        // the handler of R1 has started (it is held): wait for its Handle record
+        while !w.rec.events.lock().unwrap().iter().any(|(_, v)| v["e"] == "Handle") {
+            tokio::task::yield_now().await;
+        }
+        // 2
+        w.rec.req(2, issue(&p2));
+        let f2 = svc.call(build_request(&w.env, &p2, &never));
+        let (env2, pl2) = (w.env.clone(), p2.clone());
+        let h2 = tokio::spawn(async move { do_request(env2, f2, pl2).await });
+        dial_started.notified().await;
+        // 3
+        w.rec.req(3, issue(&p3));
+        let f3 = svc.call(build_request(&w.env, &p3, &never));
+        // 4
+        let _ = hold_tx.send(true);
+        for (r, h) in [(1u32, h1), (2u32, h2)] {
+            let out = match tokio::time::timeout(STALL, h).await {
+                Ok(Ok(o)) => Ok(o),
+                Ok(Err(e)) => Ok(Outcome::Error(format!("panic: {e}"))),
+                Err(e) => Err(e),
+            };
+            let (ev, st) = outcome_event(r, out);
+            stuck += st;
+            w.rec.req(r, ev);
+        }
+        // 5 (R2's abandoned dial is gone by now; a waiter that dials for itself must not be held)
+        let _ = open_tx.send(true);
+        let (ev, st) = outcome_event(3, tokio::time::timeout(STALL, do_request(w.env.clone(), f3, p3.clone())).await);
+        stuck += st;
+        w.rec.req(3, ev);
+    }
     drop(svc);
     drop(open_tx);
+    drop(hold_tx);
     (cfg, w.finish(stuck, 0).await)
 }
 
@@ -1936,7 +2024,7 @@ fn main() {
     }
     if cmd == "scenario" {
         let name = args.get(2).map(|s| s.as_str()).unwrap_or("");
-        if name != "waiter-owner-cancelled" {
+        if name != "waiter-owner-cancelled" && name != "waiter-owner-preempted" {
             eprintln!("unknown scenario {name}");
             std::process::exit(2);
         }
@@ -1944,7 +2032,7 @@ fn main() {
         let sockdir: String = arg(&args, "--sockdir", "/verif/out/C01/s".to_string());
         std::fs::create_dir_all(&sockdir).ok();
         let rt = tokio::runtime::Builder::new_multi_thread().worker_threads(4).enable_all().build().expect("runtime");
-        let (cfg, stats) = rt.block_on(scenario_waiter_owner_cancelled(sockdir));
+        let (cfg, stats) = rt.block_on(scenario_waiter(name, sockdir));
         let mut trace = vh::trace::TraceOut::create(&out);
         trace.emit(&json!({"e": "Reset", "run": 0, "rep": 0, "seed": 0, "tier": "scenario", "maxReq": 2,
                            "scenario": name, "cfg": cfg.to_json()}));
@@ -1959,7 +2047,7 @@ fn main() {
         let lines = trace.lines;
         trace.finish();
         println!("{}", serde_json::to_string(&json!({"scenario": name, "trace": out, "events": lines, "runs": 1, "repeat": 1,
-            "outcome": stats.events.iter().filter(|e| e["r"] == 2 && e["e"] != "Issue").cloned().collect::<Vec<_>>()})).unwrap());
+            "outcome": stats.events.iter().filter(|e| e["e"] != "Issue" && e["e"] != "Handle" && e["e"] != "Dial").cloned().collect::<Vec<_>>()})).unwrap());
         return;
     }
     if cmd != "run" {
